@@ -13,19 +13,21 @@ Definition log2R (x:R) : R := ln x / ln 2.
 Definition exp2R (y:R) : R := exp (y * ln 2).
 
 (* the log-transform path for one element: what is handed to the inner codec ... *)
-Definition zero_placeholder (a:R) (minlog e:R) : R := minlog - a * e.
-Definition zero_threshold (b:R) (minlog e:R) : R := minlog - b * e.
-Definition to_log (a:R) (minlog e:R) (x:R) : R := if Req_EM_T x 0 then zero_placeholder a minlog e else log2R (Rabs x).
+(* placeholder and threshold lie a*e + ta*t resp. b*e + tb*t below the smallest log-magnitude, t >= 0 being the rounding
+   unit of the log values (max|log2|x|| times the element type's epsilon) *)
+Definition zero_placeholder (a ta:R) (minlog e t:R) : R := minlog - a * e - ta * t.
+Definition zero_threshold (b tb:R) (minlog e t:R) : R := minlog - b * e - tb * t.
+Definition to_log (a ta:R) (minlog e t:R) (x:R) : R := if Req_EM_T x 0 then zero_placeholder a ta minlog e t else log2R (Rabs x).
 (* ... and what the decompressor makes of the inner codec's output y' and the sign bit *)
-Definition from_log (b:R) (minlog e:R) (neg:bool) (y':R) : R :=
-  let m := if Rlt_dec y' (zero_threshold b minlog e) then 0 else exp2R y' in
+Definition from_log (b tb:R) (minlog e t:R) (neg:bool) (y':R) : R :=
+  let m := if Rlt_dec y' (zero_threshold b tb minlog e t) then 0 else exp2R y' in
   if neg then - m else m.
 Definition is_neg (x:R) : bool := if Rlt_dec x 0 then true else false.
 
 (* the constants of the implementation, read from the source on every run (scaled by 10^4) *)
 Local Open Scope Z_scope.
 Definition zero_consts_ok : bool :=
-  forallb (fun t => let '(_, a, b) := t in (b + 10000 <? a) && (10000 <? b)) src_pwr_zero_consts
+  forallb (fun t => let '(_, (a, ta), (b, tb)) := t in (b + 10000 <? a) && (10000 <? b) && (tb <=? ta) && (0 <=? tb)) src_pwr_zero_consts
   && Nat.eqb (List.length src_pwr_zero_consts) 6.
 Definition sign_backend_ok : bool :=
   forallb (String.eqb "ZSTD_COMPRESSOR") src_pwr_sign_backends_enc && forallb (String.eqb "ZSTD_COMPRESSOR") src_pwr_sign_backends_dec
